@@ -12,6 +12,11 @@ def get_binding(name, namespace):
 
     for binding in namespace.bindings:
         if binding.name == name:
+            if isinstance(namespace, ast.Module) and name in ['exec', 'eval', 'locals', 'globals', 'vars'] and name in dir(builtins):
+                if all(isinstance(node, (ast.Global, ast.Name)) and not isinstance(getattr(node, 'ctx', None), (ast.Store, ast.Del)) for node in binding.references):
+                    # Declared global but never assigned, so this is still the builtin
+                    namespace.tainted = True
+
             return binding
 
     if not isinstance(namespace, ast.Module):
